@@ -372,6 +372,9 @@ pub fn run(cfg: &Cfg) -> Report {
         (7, if cfg.quick() { 0 } else { N_LE3 * 2 * 9 }),
     ];
     for (class, n) in plan {
+        if !cfg.wants(class) {
+            continue;
+        }
         if n == 0 {
             continue;
         }
